@@ -53,7 +53,7 @@ func init() {
 	})
 	register("C18", &propDef{
 		Title: "Bundle path lookups stay inside the bundle and invert each other",
-		Rules: []func(*Checker){ruleC18DirName, ruleC18Join, ruleC18Reverse, ruleRootSymmetric("C18.symmetric"), ruleCutFoundNotRefused("C18.pkgroot"), ruleDirNameAsWritten("C18.rawname"), ruleForwardRefusesUnknownOnly("C18.forward")},
+		Rules: []func(*Checker){ruleC18DirName, ruleC18Join, ruleC18Reverse, ruleRootSymmetric("C18.symmetric"), ruleCutFoundNotRefused("C18.pkgroot"), ruleDirNameAsWritten("C18.rawname"), ruleForwardPathLexical("C18.lexicalforward"), ruleForwardRefusesUnknownOnly("C18.forward")},
 		NotDecided: []string{
 			"inversion as an equation on strings (forward then reverse lookup returning the same path)",
 		},
